@@ -5,10 +5,16 @@ Open Scope string_scope.
 
 Record case20 := { c_nfd : Z; c_ops : list op; c_impl : list obs }.
 
+Definition has_tag (t : ctag) (l : list ctag) : bool :=
+  existsb (fun x => match x, t with TagOutlives, TagOutlives | TagOneToken, TagOneToken => true | _, _ => false end) l.
+
 Definition judge (c : case20) : verdict :=
   let '(ct, st) := tags_C20 (c_nfd c) (c_ops c) in
   {| v_corr := list_eqb obs_eqb (run_C20 (c_nfd c) (c_ops c)) (c_impl c);
      v_prop := ok_C20 (c_ops c) (c_impl c);
-     v_tags := (match ct with [] => [] | _ => ["registration_outlives_wait"] end)
-               ++ (match st with [] => [] | _ => ["records_shared_across_pollers"] end);
-     v_note := "" |}.
+     v_tags := (if has_tag TagOutlives ct then ["registration_outlives_wait"] else [])
+               ++ (if has_tag TagOneToken ct then ["one_token_per_descriptor"] else [])
+               ++ (match st with [] => [] | _ => ["records_shared_across_pollers"] end)
+               ++ (if wf_C20 (c_nfd c) (c_ops c) then ["wf"] else [])
+               ++ (if wf_C20 (c_nfd c) (c_ops c) && no_defect (c_ops c) then ["premises_of_holds_outside"] else []);
+     v_note := diff_note obs_eqb (run_C20 (c_nfd c) (c_ops c)) (c_impl c) |}.
